@@ -3,6 +3,8 @@
 // context mutex must be linearizable w.r.t. the sequential model (Wing-Gong search with memoisation), lock-free
 // reads through long-lived log objects must be regular-register reads.
 #include <c19_model.hpp>
+#include <fcppt/log/debug.hpp>
+#include <fcppt/log/error.hpp>
 
 #include <atomic>
 #include <map>
@@ -841,6 +843,44 @@ void unnamed_components()
   vf::add_evals(cases);
 }
 
+// ------------------------------------------------------------------ the level macros as statements
+// FCPPT_LOG_<LEVEL>(object, output) is a statement: used as the unbraced branch of an if / else it emits "exactly when
+// its level is at least the object's level" - and the else branch belongs to the caller's if.
+void macros_as_branches()
+{
+  std::string e = "log-macros-as-branches";
+  if (!vf::entry_enabled(e) || !vf::mine(vf::hash_str(e) + 1))
+    return;
+  vf::set_entry(e);
+  std::uint64_t cases = 0;
+  for (int threshold = 0; threshold <= NLEVELS; ++threshold)
+    for (int cond = 0; cond < 2; ++cond)
+    {
+      if (!vf::begin_case("object level %d, condition %s: if (c) FCPPT_LOG_DEBUG(..then..) else FCPPT_LOG_ERROR(..else..)", threshold, cond ? "true" : "false"))
+        continue;
+      vf::note_distinct(vf::hash_mix(vf::hash_str(e), static_cast<std::uint64_t>(threshold * 2 + cond)));
+      ++cases;
+      sinks_t sinks;
+      l::context ctx{toopt(threshold), make_streams(sinks)};
+      l::object obj(fcppt::make_ref(ctx), l::parameters{l::name{"m"}, l::format::optional_function{}});
+      if (cond != 0)
+        FCPPT_LOG_DEBUG(obj, l::out << "then")
+      else
+        FCPPT_LOG_ERROR(obj, l::out << "else")
+      bool const debug_on = threshold != NLEVELS && static_cast<int>(l::level::debug) >= threshold;
+      bool const error_on = threshold != NLEVELS && static_cast<int>(l::level::error) >= threshold;
+      std::string const want_debug = cond != 0 && debug_on ? "m: debug: then\n" : "";
+      std::string const want_error = cond == 0 && error_on ? "m: error: else\n" : "";
+      std::string const got_debug = sinks.s[static_cast<std::size_t>(l::level::debug)].str();
+      std::string const got_error = sinks.s[static_cast<std::size_t>(l::level::error)].str();
+      VF_COUNT("log/macros/branches");
+      if (got_debug != want_debug || got_error != want_error)
+        vf::violation("log/macro-as-branch/emission", "mismatch",
+                      "debug sink [" + got_debug + "] want [" + want_debug + "], error sink [" + got_error + "] want [" + want_error + "] case: " + vf::current_case());
+    }
+  vf::add_evals(cases);
+}
+
 void body()
 {
   for (char const *b : {"log/seq/set", "log/seq/set-empty-level", "log/seq/get", "log/seq/create-by-location", "log/seq/create-by-context",
@@ -853,6 +893,7 @@ void body()
   concurrent(vf::tier<std::uint64_t>(12000, 400000));
   spinning_readers(vf::tier<std::uint64_t>(1600, 60000));
   unnamed_components();
+  macros_as_branches();
 }
 }
 
